@@ -3,9 +3,10 @@
 From Coq Require Import ExtrOcamlBasic.
 From Coq Require Import List ZArith String.
 From Coq Require Import NArith.
-From IprV Require Import GenTypes Visitor Bits Arena Lexicon LexiconProofs.
-From IprV.gen Require Import GenCategory GenIface GenVisitor GenAccept GenWords GenLexAcc.
+From IprV Require Import GenTypes Visitor Bits Arena Lexicon LexiconProofs Derived Schema.
+From IprV.gen Require Import GenCategory GenIface GenVisitor GenAccept GenWords GenLexAcc GenDerived GenFactory.
 Import ListNotations.
+Local Open Scope bool_scope.
 
 (* C06: for every leaf interface class: its name, the enumerator its code
    denotes, the hook accept selects, the sink reached by default forwarding,
@@ -55,7 +56,23 @@ Definition lex_cc_word (m : table) (c : nid) : option word := cc_word c03_known 
 Definition lex_fundamental : list string := gen_fundamental.
 Definition lex_builtin_spellings : list string := gen_builtins.
 
+(* C02/C09/C14: what the documentation table and the model of the code predict for one factory call *)
+Fixpoint strs_eqb (a b : list string) : bool :=
+  match a, b with [] , [] => true | x :: a', y :: b' => streq x y && strs_eqb a' b' | _, _ => false end.
+Definition c02_find (cls name : string) (sorts : list string) : option gfactory :=
+  List.find (fun f => streq (gf_class f) cls && streq (gf_name f) name && strs_eqb (gf_sorts f) sorts) gen_factories.
+(* documented accessor, expected value, and whether the static model reaches it *)
+Definition c02_expect (f : gfactory) (args : list string) : option (list (string * (string * bool))) :=
+  option_map (map (fun r => (fst r, (render args (snd r),
+                                     match model_read gen_derived f (fst r) with Some _ => true | None => false end)))) (doc f).
+(* the node the model of the code builds: constructor slot -> value *)
+Definition c02_model_node (f : gfactory) (args : list string) : option node :=
+  option_map (fun st => build st args) (store_of f).
+Definition c02_exempt : gfactory -> bool := exempt.
+Definition c02_factories : list gfactory := gen_factories.
+
 Extraction "extracted/genmodel.ml" c06_rows
+  c02_find c02_expect c02_model_node c02_exempt c02_factories
   lex_step lex_key_of lex_xfer_val lex_linkage_word lex_cc_word lex_fundamental lex_builtin_spellings
   lex_builtin_words ix_of
   c03_known c03_intern c03_chars c03_node_block pool_init allocate arena_init a_npools a_chain
